@@ -710,6 +710,7 @@ func runC20(c *fw.Ctx) {
 		r := r
 		timed("broker_storm", func() { c20Broker(c, r) })
 	}
+	timed("fresh_second", func() { c04FreshSecond(c, 20) })
 	// (8) the session-lifecycle, takeover, will, tenant, retransmission and cross-node scenarios of the
 	// other checks, re-run here only so that the race detector sees those code paths (conn.go, packets.go,
 	// nodes.go, grpc.go); their own oracles report to a scratch context - those verdicts belong to C11-C17
